@@ -155,7 +155,8 @@ def replay(case, ctx):
         I = [gauss(x) for x in sol['i']]
         vscale = max([abs(x) for x in U] + [abs(x - phiref) for x in phi.values()] + [1e-9]) * factor
         iscale = max([abs(x) for x in I] + [1e-9]) * factor
-        vscale = max(vscale, iscale * 1e-3)        # a closed switch is 1e-12 Ohm in the library and an ideal short in the specification
+        vscale = max(vscale, iscale * 1e-3)
+        iscale = max(iscale, vscale * 1e-3)        # exact zeros: anything below 1e-9 of the circuit's own scale is numerical noise
         pp = opts.get('precision', 3)
 
         def annotate(what, text, value, unit, scale, quantity):
